@@ -12,9 +12,12 @@ worker is a real thread, but exactly one holds the baton at any time:
                     list of worker ids taken from a TLC behaviour of CubePool.tla.
 
 Chunking and exception semantics copy CPython 3.12's Pool.map: chunks of ceil(n / (4 * P))
-consecutive tasks, a task raising an Exception aborts the rest of its chunk and map re-raises the first
-recorded failure after all chunks have finished; a task raising any other BaseException kills its worker
-and map() would never return (PoolHang).
+consecutive tasks (an explicit chunksize of 0 submits nothing), a task raising an Exception aborts the rest of
+its chunk and map re-raises the first recorded failure after all chunks have finished; a StopIteration ends
+its chunk silently (mapstar is list(map(...))); a task raising any other BaseException kills its worker
+and map() would never return (PoolHang). map_async / starmap / imap / imap_unordered / apply are routed
+through the same chunk scheduler; a finite timeout given to AsyncResult.wait/get may expire before the work
+is done (a worker can be arbitrarily slow), decided by the seeded coin timeout_prob.
 
 Every boundary is logged with a scheduler-global sequence number (the scheduler serialises
 everything, so the order is exact): ("take", w, chunk), ("check", w, task, raised), ("fill", w, task),
@@ -153,57 +156,104 @@ class Scheduler:
 
 
 def make_pool_class(sched):
-    class SchedPool:
-        def __init__(self, processes=None, *a, **kw):
-            self.n = processes or 1
-            sched.pools += 1
+    import multiprocessing
 
-        def close(self):
-            pass
+    class _Async:
+        """AsyncResult / MapResult: the work is carried out (under the scheduler) when the caller first waits for it.
+        A finite timeout may expire first - a worker can be arbitrarily slow - with probability sched.timeout_prob:
+        the caller then continues while only part of the tasks have run."""
 
-        def terminate(self):
-            pass
+        def __init__(self, job, single=False):
+            self._job, self._single = job, single
 
-        def join(self):
-            pass
+        def ready(self):
+            return self._job.done
 
-        def map(self, fn, iterable, chunksize=None):
-            tasks = list(iterable)
-            if not tasks:
-                return []
+        def successful(self):
+            if not self._job.done:
+                raise ValueError("not ready")
+            return not self._job.failures
+
+        def wait(self, timeout=None):
+            if self._job.done:
+                return
+            if timeout is not None and sched.rnd.random() < getattr(sched, "timeout_prob", 0.5):
+                sched.log.append(("timeout", 0, 0))
+                self._job.run(budget=sched.rnd.randrange(0, max(1, len(self._job.tasks))))
+                return
+            self._job.run()
+
+        def get(self, timeout=None):
+            self.wait(timeout)
+            if not self._job.done:
+                raise multiprocessing.TimeoutError
+            if self._job.hung:
+                raise PoolHang(self._job.hung[0])
+            if self._job.failures:
+                raise self._job.failures[0]
+            out = self._job.values()
+            return out[0] if self._single else out
+
+    class _Job:
+        """one map-like call: tasks cut into chunks, run by P scheduled worker threads"""
+
+        def __init__(self, n, fn, tasks, chunksize, star=False):
+            self.n, self.fn, self.tasks, self.star = n, fn, tasks, star
             if chunksize is None:
-                chunksize, extra = divmod(len(tasks), self.n * 4)
+                chunksize, extra = divmod(len(tasks), n * 4)
                 if extra:
                     chunksize += 1
-            chunks = [(c, list(range(i, min(i + chunksize, len(tasks))))) for c, i in
-                      enumerate(range(0, len(tasks), chunksize), 1)]
-            queue = list(chunks)
-            results = [None] * len(tasks)
-            failures = []
-            hung = []
-            sched.log.append(("map", self.n, len(tasks), chunksize))
+            self.chunksize = chunksize
+            # CPython: Pool._get_tasks slices the iterable `chunksize` items at a time and stops at the first empty
+            # slice - with chunksize 0 no task is ever submitted and map() returns at once
+            self.queue = [] if chunksize < 1 else [(c, list(range(i, min(i + chunksize, len(tasks))))) for c, i in
+                                                   enumerate(range(0, len(tasks), chunksize), 1)]
+            self.results = {}
+            self.order = []
+            self.failures, self.hung = [], []
+            self.done = not self.queue
+            self.started = 0
+            sched.log.append(("map", n, len(tasks), chunksize))
+
+        def values(self):
+            if self.chunksize < 1:
+                return [None] * len(self.tasks)          # CPython: the preallocated result list, never filled
+            out = []
+            for i in range(len(self.tasks)):
+                if i in self.results:
+                    out.append(self.results[i])
+            return out
+
+        def run(self, budget=None):
+            job = self
 
             def worker(w):
                 sched.enter(w)
                 if sched.script is None:
                     sched.worker_of[threading.get_ident()] = w
                 try:
-                    while True:
-                        if not queue:
-                            break
-                        c, idxs = queue.pop(0)
+                    while job.queue and (budget is None or job.started < budget):
+                        c, idxs = job.queue.pop(0)
                         sched.boundary(w, "take", w, c)
                         try:
-                            for i in idxs:
+                            while idxs:
+                                if budget is not None and job.started >= budget:
+                                    job.queue.insert(0, (c, idxs))      # still pending when the caller stopped waiting
+                                    break
+                                i = idxs.pop(0)
+                                job.started += 1
                                 sched.task_of[w] = i + 1
-                                results[i] = fn(tasks[i])
+                                job.results[i] = job.fn(*job.tasks[i]) if job.star else job.fn(job.tasks[i])
+                                job.order.append(i)
                                 sched.boundary(w, "end", w, i + 1)
                         except StopIteration:
                             pass                         # CPython: mapstar is list(map(fn, chunk)) - the chunk just ends
                         except Exception as e:  # noqa
-                            failures.append(e)           # CPython: the rest of the chunk is abandoned
+                            job.failures.append(e)       # CPython: the rest of the chunk is abandoned
+                            job.failed_at = getattr(job, "failed_at", {})
+                            job.failed_at[i] = e
                         except BaseException as e:  # noqa
-                            hung.append(e)               # CPython: the worker thread dies, map() never returns
+                            job.hung.append(e)           # CPython: the worker thread dies, map() never returns
                             break
                 finally:
                     sched.worker_of.pop(threading.get_ident(), None)
@@ -220,11 +270,73 @@ def make_pool_class(sched):
                 t.join(120)
                 if t.is_alive():
                     raise RuntimeError("scheduler deadlock: worker did not finish")
-            if hung:
-                raise PoolHang(hung[0])
-            if failures:
-                raise failures[0]
-            return results
+            self.done = not self.queue
+
+    class SchedPool:
+        """the subset of multiprocessing.pool.Pool a caller can reasonably use: map, map_async, starmap, starmap_async,
+        imap, imap_unordered, apply, apply_async, close/terminate/join and the context-manager protocol"""
+
+        def __init__(self, processes=None, *a, **kw):
+            self.n = processes or os.cpu_count() or 1
+            sched.pools += 1
+
+        def close(self):
+            pass
+
+        def terminate(self):
+            pass
+
+        def join(self):
+            pass
+
+        def __enter__(self):
+            return self
+
+        def __exit__(self, *exc):
+            self.terminate()
+
+        def map_async(self, fn, iterable, chunksize=None, callback=None, error_callback=None):
+            return _Async(_Job(self.n, fn, list(iterable), chunksize))
+
+        def map(self, fn, iterable, chunksize=None):
+            return self.map_async(fn, iterable, chunksize).get()
+
+        def starmap_async(self, fn, iterable, chunksize=None, callback=None, error_callback=None):
+            return _Async(_Job(self.n, fn, [tuple(x) for x in iterable], chunksize, star=True))
+
+        def starmap(self, fn, iterable, chunksize=None):
+            return self.starmap_async(fn, iterable, chunksize).get()
+
+        def apply_async(self, fn, args=(), kwds=None, callback=None, error_callback=None):
+            kwds = kwds or {}
+            return _Async(_Job(self.n, lambda _x: fn(*args, **kwds), [None], 1), single=True)
+
+        def apply(self, fn, args=(), kwds=None):
+            return self.apply_async(fn, args, kwds).get()
+
+        def _imap(self, fn, iterable, chunksize, ordered):
+            if chunksize < 1:
+                raise ValueError("Chunksize must be 1+, not {0:n}".format(chunksize))
+            job = _Job(self.n, fn, list(iterable), chunksize)
+            job.run()
+            if job.hung:
+                raise PoolHang(job.hung[0])
+            failed = getattr(job, "failed_at", {})
+            seq = range(len(job.tasks)) if ordered else job.order + sorted(failed)
+
+            def gen():
+                for i in seq:
+                    if i in failed:
+                        raise failed[i]
+                    if i in job.results:
+                        yield job.results[i]
+            return gen()
+
+        def imap(self, fn, iterable, chunksize=1):
+            return self._imap(fn, iterable, chunksize, True)
+
+        def imap_unordered(self, fn, iterable, chunksize=1):
+            return self._imap(fn, iterable, chunksize, False)
 
     return SchedPool
 
